@@ -168,9 +168,6 @@ def build_crafted(S, T, root):
     add("valid", good)
     for v in (b"x", b"", b"4x", b"1e2", b"0x20", b"4 9", b"\x00", b"=", b"9=5"):
         add("bodylength_non_numeric", refs.build(F, body_length=v))
-    for k in range(1, 41):
-        add("bodylength_negative", refs.build(F, body_length=b"-%d" % k))
-    add("bodylength_negative", refs.build(F, body_length=b"-%d" % n_body))
     for d in (-10, -2, -1, 1, 2, 10, 100, 1000):
         if n_body + d >= 0:
             add("bodylength_wrong", refs.build(F, body_length=n_body + d))
@@ -179,6 +176,9 @@ def build_crafted(S, T, root):
     # the frame of tests/test_codec.py::test_decode_custom_msg_type (BodyLength two short)
     add("bodylength_wrong", b"8=FIX.4.4\x019=82\x0135=ASD\x0149=sender\x0156=target\x0134=1\x01"
         b"52=20230919-07:13:26.808\x0144=123.45\x0138=9876\x0155=VOD.L\x0110=248\x01")
+    for k in range(1, 41):
+        add("bodylength_negative", refs.build(F, body_length=b"-%d" % k))
+    add("bodylength_negative", refs.build(F, body_length=b"-%d" % n_body))
     raw_body = b"".join(b"%s=%s\x01" % (str(t).encode(), str(v).encode()) for t, v in F)
 
     def with_ck(pre):
@@ -249,9 +249,11 @@ GROUP_START = {b"453"}
 GROUP_MEMBERS = {b"448", b"447", b"452", b"802", b"523", b"803"}
 
 
-def cause_of(buf):
+def cause_of(buf, for_raise=False):
     """First anomaly of the first frame candidate of ``buf`` (a candidate runs
-    from the first start marker to the next one or the end)."""
+    from the first start marker to the next one or the end). ``for_raise``: a
+    negative BodyLength is only reported when no later field is unparseable (it
+    is never by itself the reason of an exception)."""
     s = buf.find(MARK)
     if s < 0:
         return "no_start_marker"
@@ -271,9 +273,11 @@ def cause_of(buf):
     if t != b"9":
         return "second_field_not_bodylength"
     if not v.isdigit():
-        if v[:1] == b"-" and v[1:].isdigit():
+        if not (v[:1] == b"-" and v[1:].isdigit()):
+            return "bodylength_non_numeric"
+        if not for_raise:
             return "bodylength_negative"
-        return "bodylength_non_numeric"
+    negative = not v.isdigit()
     tags = []
     for f in fields[2:]:
         if b"=" not in f:
@@ -292,6 +296,8 @@ def cause_of(buf):
         before = set(tags[:g]) | {b"8", b"9"}
         if any(t in before for t in tags[j:]):
             return "repeated_tag_after_group"
+    if negative:
+        return "bodylength_negative"
     if tags[-1] != b"10":
         return "no_checksum_field"
     head = len(fields[0]) + 1 + len(fields[1]) + 1
@@ -319,7 +325,8 @@ def need_bytes(buf):
 # independent acceptance oracle
 # --------------------------------------------------------------------------
 _LENIENT = bytes.maketrans(b"", b"")
-_STRIP = b" \t\n\r\x0b\x0c+_"
+# what Python's int() tolerates around / inside a number (latin-1 white space, sign, underscore)
+_STRIP = b" \t\n\r\x0b\x0c\x1c\x1d\x1e\x1f\x85\xa0+_"
 
 
 def _ck_value(v):
@@ -327,6 +334,12 @@ def _ck_value(v):
     if v2.isdigit():
         return int(v2)
     return None
+
+
+def _field_value(buf, start):
+    """Bytes of a field value: up to the next SOH, the next start marker or the end."""
+    ends = [x for x in (buf.find(SOH, start), buf.find(MARK, start)) if x >= 0]
+    return buf[start: min(ends) if ends else len(buf)]
 
 
 def frame_verdict(buf, consumed, raw):
@@ -350,9 +363,7 @@ def frame_verdict(buf, consumed, raw):
         if buf[te: te + 3] == b"10=" and buf[te - 1: te] == SOH:
             bl_ok = True
     if bl_ok:
-        e = buf.find(SOH, te)
-        val = buf[te + 3: e if e >= 0 else len(buf)]
-        if _ck_value(val) == refs.checksum(buf[p:te]):
+        if _ck_value(_field_value(buf, te + 3)) == refs.checksum(buf[p:te]):
             return None
         return "checksum_not_verified"
     # BodyLength does not lead to a CheckSum field: is there any self-consistent one?
@@ -361,9 +372,7 @@ def frame_verdict(buf, consumed, raw):
         i = buf.find(b"\x0110=", i, end)
         if i < 0:
             break
-        e = buf.find(SOH, i + 1)
-        val = buf[i + 4: e if e >= 0 else len(buf)]
-        if _ck_value(val) == refs.checksum(buf[p: i + 1]):
+        if _ck_value(_field_value(buf, i + 4)) == refs.checksum(buf[p: i + 1]):
             return "bodylength_not_verified"
         i += 1
     return "checksum_not_verified"
@@ -392,7 +401,7 @@ def _v(kind_sig, cause, detail, rep):
 def check_call(buf, r, kind, stage, rep):
     """Violation for ONE decoder call or None."""
     if r[0] == "exc":
-        return _v("raises", "%s:%s" % (r[1], cause_of(buf)),
+        return _v("raises", "%s:%s" % (r[1], cause_of(buf, for_raise=True)),
                   {"stage": stage, "buffer": buf[:400], "exception": r[1], "message": r[2]}, rep)
     _, msg, n, raw = r
     if not isinstance(n, int) or isinstance(n, bool) or n < 0:
